@@ -98,6 +98,9 @@ def _parser():
             # the parts are read through the tuple protocol of Cell (row, col = cell) and through its attributes
             row, col = cell
             back = to_label(row, col) if (row is cell.row and col is cell.col and cell[0] is row and cell[1] is col) else 'TUPLE<>ATTRIBUTES'
+            # a part is the triple (index, label, is_absolute) - helper/cell.py ParsedLabel - and may be taken apart like one
+            if any(tuple(pt) != (pt.index, pt.label, pt.is_absolute) for pt in (row, col)):
+                back = 'PART<>(index, label, is_absolute)'
             _EVENTS.append('%s|%s|%d|%d' % (cell.label, back, bool(cell.row.is_absolute), bool(cell.col.is_absolute)))
             done(1)
         p.on('callCellValue', on_cell)
@@ -117,6 +120,10 @@ def _parser():
             done([[1, 2], [3, 4]])
         p.on('callRangeValue', on_range)
         _PARSER.append(p)
+        # a second parser of a host that listens to CELLS only: a range is no cell - no cell event is raised for it
+        q = hotxlfp.Parser()
+        q.on('callCellValue', on_cell)
+        _PARSER.append(q)
     return _PARSER[0]
 
 
@@ -319,6 +326,8 @@ def cases(rng, ctx):
         a = lab2()
         b = lab2() if rng.random() < 0.85 else a
         out.append({'kind': 'formula', 's': rng.choice(['SUM(%s:%s)', '%s:%s', 'sum(%s:%s)']) % (a, b)})
+    for f in ['SUM(B2:C3)', 'SUM(y1:ab1)', 'SUM(A$9:A$11)', 'SUM($B$2:C3)', 'B2:C3', 'SUM(A1:A1)']:
+        out.append({'kind': 'formula', 's': f, 'cellonly': True})
     # non-labels
     # (ß ı ſ ﬁ ﬆ: characters that str.upper() turns into ASCII letters; K: the Kelvin sign, which str.lower() turns into k)
     junk_alphabet = 'Aa1$ -_.:\n\t١éАßıſﬁﬆ\u212a'
@@ -366,6 +375,8 @@ def impl(c):
         return str(cell.row_label_to_index(c['s']))
     if k == 'formula':
         p = _parser()
+        if c.get('cellonly'):
+            p = _PARSER[1]
         del _EVENTS[:]
         p.parse(c.get('wrap', '%s') % c['s'])
         return 'events %s' % ' '.join(enc_str(e) for e in _EVENTS)
@@ -423,6 +434,11 @@ def oracle(c, impl_ans):
     if k == 'formula':
         ev = [common.dec_str(t) for t in impl_ans.split(' ')[1:] if t]
         f = c['s']
+        if c.get('cellonly'):
+            if ev:
+                return ('on a parser with a cell listener only, the formula %r (a range, no single cell) raised the cell events (label | recomposed '
+                        'parts | row $ | column $) %r' % (f, ev))
+            return None
         if c.get('wrap'):
             want = '%s|%s|%d|%d' % (f.upper(), f.upper(), '$' in f.lstrip('$'), f.startswith('$'))
             if ev != [want]:
